@@ -41,9 +41,16 @@ CONFIG = {
               "nothing); the undo cache predicate and keys (C11_cache_matches_inverse, C11_cache_matches_iff_inverse, C11_cache_find_inverse, "
               "C11_cache_matches_v0_weaker, C11_unit_edit_clears_cache + C11_no_undo_after_unit); the stored clause list (C11_retain_removes_exactly, "
               "C11_retain_is_filter, C11_retain_is_edit_spec, C11_adjust_removal_is_edit_spec, C11_retain_v0_single, C11_recompile_stored_once: an "
-              "edit answered Recompile applies the edit once). MODEL + EXACT CORRESPONDENCE + EXAMPLES ONLY: unit_edit_new (the unit edit over a new "
-              "variable: and root, one or-triangle per skipped number, the literal; the dumped vector is compared with it on every such edit; no "
-              "general semantic theorem yet, ex_c11_unit_new evaluates two instances). "
+              "edit answered Recompile applies the edit once). FULL as well: the unit edit over a NEW variable (unit_edit_new, F27; for every WF C over n features and every l with "
+              "n < |l|, any gap, n' = |l|): C11_unit_new_sem (Models (unit_edit_new C n l) n' = filter (contains l) (Models C n'), list "
+              "equality; C11_models_lift: Models C n' is the truth table of C lifted to n' features with the new ones free), "
+              "C11_unit_new_eval (pointwise), C11_unit_new_sem_assumptions, C11_unit_new_count (root count = 2^(|l|-1-n) * root_count C), "
+              "C11_unit_new_WF / C11_unit_new_WFQ (the edited vector is WF / WFQ over n' UNCONDITIONALLY, for an And root that takes the new "
+              "children and for every other root under a fresh And root; via C11_reflatten_WF / C11_reflatten_WFQ: the re-flattening of any "
+              "WF vector is WF), C11_unit_new_then_count / _then_sat / _then_core (execute_query, sat, calculate_core on the edited vector "
+              "answer for C /\\ l over n' features, by the C02 / C03 / C05 theorems), C11_unit_new_is_edit_spec (= edit_spec for a unit "
+              "clause over a new variable, feature count |l|); no shape refutes them (ex_c11_unit_new: gap 0 and 2, And / Or / literal / "
+              "TrueN root, n = 0); the dumped vector is compared with unit_edit_new on every such edit. "
               "REFUTED on the faithful model (vm_compute witnesses): C11_removal_after_simplify_refuted (K8). About the code BEFORE the repairs: "
               "C11_multi_removal_refuted_v0 (K23), C11_cache_matches_partial_refuted_v0 (K25), C11_dispatch_unit_drops_removal_v0 (K26), "
               "C11_undo_stale_after_unit_refuted_v0 (K34), C11_recompile_adjusts_twice_refuted_v0 (K38), C11_dispatch_empty_store_v1 (K3, K20, K27). "
